@@ -304,7 +304,12 @@ class RemoveComponent(FnContract):
             removed_msgs = [e.fields['cid'] for e in st.events if e.cls == 'DataRemoveComponentMessage']
             P.check(qn + "/ensures:one-remove-message-per-removed-attribute",
                     len(removed_msgs) == len(set(map(id, removed_msgs))) == (2 + k - len(left)) and all(c not in left for c in removed_msgs))
-            P.check(qn + "/ensures:components-changed-announced-each-time", sum(1 for e in st.events if e.cls == 'ComponentsChangedMessage') == len(removed_msgs))
+            # listeners that only follow ComponentsChangedMessage must hear of the change after the last removal (once is enough; the
+            # unchanged code announces it after every removal)
+            kinds = [e.cls for e in st.events]
+            P.check(qn + "/ensures:components-changed-announced-after-the-last-removal",
+                    (not removed_msgs) or ('ComponentsChangedMessage' in kinds and
+                                           max(i for i, k in enumerate(kinds) if k == 'ComponentsChangedMessage') > max(i for i, k in enumerate(kinds) if k == 'DataRemoveComponentMessage')))
         else:
             P.check(qn + "/ensures:no-hub-no-message", not st.events)
 
@@ -316,6 +321,8 @@ class _SymMembers(PObj):
         PObj.__init__(self, 'id-list')
         self.universe, self.flags = universe, flags
         self.methods['__contains__'] = lambda I, s, c: next((f for u, f in zip(universe, flags) if u is c), False)
+        # iteration decides the membership of each candidate on the current path (a flag already decided has one feasible side)
+        self.methods['__iter__'] = lambda I, s: PList([u for u, f in zip(universe, flags) if I.path.branch(f)])
 
 
 CONTRACTS = [FindComponentID(), UpdateID(), ReorderComponents(), RemoveComponent()]
